@@ -256,7 +256,9 @@ pub fn check_case(c: &LifeCase, l: &mut Local) -> Result<(), String> {
             }
             LifeOp::InitBundle { user } => {
                 let u = s.users[*user as usize % s.users.len()];
-                if s.w.init_bundle(u).is_ok() {
+                // odd user selectors create the bundle through the with-metadata variant
+                if s.w.init_bundle_kind(u, *user % 2 == 1).is_ok() {
+                    l.count(if *user % 2 == 1 { "bundle_created/with_metadata" } else { "bundle_created/plain" });
                     s.bundle_open.push(BTreeSet::new());
                     s.bundle_deleted.push(false);
                     let b = s.w.bundles.last().unwrap();
